@@ -27,6 +27,9 @@ type heapKind struct {
 	N           int     `json:"n"`
 	BuiltBytes  int64   `json:"built_bytes"` // live heap attributable to the built tree
 	QueryBPO    float64 `json:"query_bytes_per_op"`
+	WorstQueryBPO float64 `json:"worst_single_method_bytes_per_call"`
+	WorstQuery  string  `json:"worst_single_method"`
+	WorstQueryBytes int64 `json:"largest_growth_in_one_method_phase_bytes"`
 	OverwrBPO   float64 `json:"overwrite_bytes_per_op"`
 	ChurnBPO    float64 `json:"churn_bytes_per_op"`
 	EmptyRetain int64   `json:"empty_after_deletes_bytes"`
@@ -153,6 +156,55 @@ func heapOne(seed uint64, ks kindSpec, N, nkeys int) heapKind {
 	res.QueryBPO = float64(h2-h1) / float64(N)
 	res.ColBufLen, _ = colBuf(t)
 
+	// (a') one kind of query at a time: a leak specific to one method (a few hundred bytes per
+	// call) is invisible in the mixed phase, where that method is one call in a hundred
+	sub := []struct {
+		name string
+		n    int
+		f    func()
+	}{
+		{"Search", N / 2, func() { t.Search(pool[live[r.n(nkeys)]]); t.Search(probes[r.n(len(probes))]) }},
+		{"Minimum/Maximum", N / 4, func() { t.Min(); t.Max() }},
+		{"All", N / 200, func() { drainSeq(t, "ALL", nil, -1) }},
+		{"Backward", N / 200, func() { drainSeq(t, "BWD", nil, 1+r.n(nkeys)) }},
+		{"TopK", N / 40, func() { drainSeq(t, "TOPK", kArgs[r.n(len(kArgs))], -1) }},
+		{"BottomK", N / 40, func() { drainSeq(t, "BOTK", kArgs[r.n(len(kArgs))], 2) }},
+		{"Range", N / 10, func() { drainSeq(t, "RNG", rngArgs[r.n(len(rngArgs))], 3) }},
+	}
+	if hasPfx || kind == "coll" {
+		if kind == "coll" {
+			for i := range pfxArgs {
+				pfxArgs[i] = []string{pool[r.n(len(pool))]}
+			}
+		}
+		sub = append(sub, struct {
+			name string
+			n    int
+			f    func()
+		}{"Prefix", N / 10, func() { drainSeq(t, "PFX", pfxArgs[r.n(len(pfxArgs))], 3) }})
+	}
+	prev := liveHeap()
+	for _, sp := range sub {
+		if sp.n < 1 {
+			continue
+		}
+		for i := 0; i < sp.n; i++ {
+			sp.f()
+		}
+		cur := liveHeap()
+		bpo := float64(cur-prev) / float64(sp.n)
+		// a few kilobytes of heap jitter divided by a few hundred calls is not a leak: only growth
+		// beyond 64 KiB in one sub-phase is rated per call
+		if cur-prev > 64*1024 && bpo > res.WorstQueryBPO {
+			res.WorstQueryBPO, res.WorstQuery = bpo, sp.name
+		}
+		if cur-prev > res.WorstQueryBytes {
+			res.WorstQueryBytes = cur - prev
+		}
+		prev = cur
+	}
+	h2 = prev
+
 	// (b) overwrites of present keys
 	for i := 0; i < N; i++ {
 		t.Insert(pool[live[r.n(nkeys)]], i)
@@ -208,6 +260,7 @@ func heapMain(args []string) int {
 		N     int        `json:"n"`
 		Noise int64      `json:"noise_bytes"` // |difference| of two back-to-back live-heap measurements
 		Kinds []heapKind `json:"kinds"`
+		Bulk  []heapBulkRes `json:"bulk"`
 	}
 	out.Seed, out.N = seed, N
 	// warm-up: tables of x/text, fmt, the pools' first use
@@ -221,6 +274,40 @@ func heapMain(args []string) int {
 	for _, ks := range kinds {
 		out.Kinds = append(out.Kinds, heapOne(seed, ks, N, nkeys))
 	}
+	out.Bulk = append(out.Bulk, heapBulk("u4", "uint32", 120000), heapBulk("alpha", "string", 60000))
 	printJSON(out)
 	return 0
+}
+
+type heapBulkRes struct {
+	Kind      string `json:"kind"`
+	Keys      int    `json:"keys"`
+	PeakBytes int64  `json:"peak_bytes"`
+	Retained  int64  `json:"retained_after_deleting_everything"`
+}
+
+// heapBulk: a large dense key set (thousands of 256-way nodes at the peak), then every key
+// deleted: what is still retained must not depend on the peak
+func heapBulk(kind, variant string, n int) heapBulkRes {
+	keys := make([]string, n)
+	for i := range keys {
+		if kind == "alpha" {
+			keys[i] = xhex([]byte{'k', byte(1 + i/(255*255)), byte(1 + (i/255)%255), byte(1 + i%255)})
+		} else {
+			keys[i] = showU(uint64(0x01000000 + i))
+		}
+	}
+	base := liveHeap()
+	t := newTree(kind, variant)
+	for i, k := range keys {
+		t.Insert(k, i)
+	}
+	peak := liveHeap()
+	for _, k := range keys {
+		t.Delete(k)
+	}
+	end := liveHeap()
+	runtime.KeepAlive(t)
+	runtime.KeepAlive(keys)
+	return heapBulkRes{Kind: kind + "/" + variant, Keys: n, PeakBytes: peak - base, Retained: end - base}
 }
